@@ -193,6 +193,8 @@ class ServerSet(object):
     self._on_leave = on_leave or noop
     self._notification_queue = Queue(0)
     self._watching = False
+    self._watched_czxid = None
+    self._watch_generation = 0
     self._cb_blocker = self._CallbackBlocker()
     self._member_filter = member_filter or true
     self._member_factory = member_factory or Member.from_node
@@ -267,17 +269,30 @@ class ServerSet(object):
     # stat == None -> the node was deleted (or doesnt exist)
     if stat is None:
       self._watching = False
+      # A ChildrenWatch that is still alive belongs to the deleted incarnation.
+      self._watch_generation += 1
       # The path is gone: report it to the notification worker as an empty child
       # set, so that _nodes is reset and the leaves are raised (and their errors
       # handled) in order with every other notification.
       self._on_set_changed(())
-    elif not self._watching:
+    elif not self._watching or stat.czxid != self._watched_czxid:
+      # Also (re)start the watch when the path turns out to be a new incarnation:
+      # it was deleted and re-created before the deletion was seen here, and the
+      # ChildrenWatch of the old incarnation may have stopped itself for good.
       self._watching = True
+      self._watched_czxid = stat.czxid
       self._begin_watch()
 
   def _begin_watch(self):
     self._log.info('Beginning to watch path %s' % self._zk_path)
-    ChildrenWatch(self._zk, self._zk_path, self._on_set_changed)
+    self._watch_generation += 1
+    generation = self._watch_generation
+    def on_set_changed(children):
+      if generation != self._watch_generation:
+        # Superseded by a newer watch, returning False stops this one.
+        return False
+      self._on_set_changed(children)
+    ChildrenWatch(self._zk, self._zk_path, on_set_changed)
 
   def _notification_worker(self):
     """'Atomically' raise notifications for join / leave.
